@@ -341,7 +341,7 @@ struct Base {
 }
 
 fn ff_amounts(t: Tier) -> Vec<u64> {
-    t.pick(vec![1, 3, (1 << 63) + 1], vec![1, 3, 0x7f, 0x81, (1 << 32) + 1, (1 << 63) + 1, u64::MAX])
+    t.pick(vec![1, 3, (1 << 63) + 1], vec![1, 3, 0x81, (1 << 63) + 1, u64::MAX])
 }
 
 /// all constructed genuine singleton spends
@@ -450,7 +450,7 @@ fn targets(b: &Base, t: Tier, seed: bool) -> Vec<(RCoin, RCoin)> {
     let mut npps: Vec<[u8; 32]> = vec![[0xab; 32], [0x00; 32], [0xff; 32]];
     let own_pp: [u8; 32] = b.parts.pp.clone().try_into().unwrap();
     npps.push(own_pp);
-    let mut amts: Vec<u64> = if seed { vec![b.coin.amount, 1, 3, 5] } else { t.pick(vec![1, 3, (1 << 63) + 1], vec![1, 3, 0x81, (1 << 63) + 1, u64::MAX]) };
+    let mut amts: Vec<u64> = if seed { vec![b.coin.amount, 1, 3, 5] } else { t.pick(vec![1, 3, (1 << 63) + 1], vec![1, 3, 0x81, u64::MAX]) };
     amts.dedup();
     let mut out = Vec::new();
     for npp in &npps {
@@ -474,9 +474,6 @@ fn flip(h: &[u8]) -> Vec<u8> {
 fn flip32(h: &[u8; 32]) -> [u8; 32] {
     flip(h).try_into().unwrap()
 }
-fn amt_add(a: &[u8], d: u64) -> Vec<u8> {
-    enc_u64(dec_u64(a).unwrap().wrapping_add(d))
-}
 /// an odd amount different from `a`
 fn other_odd(a: u64) -> u64 {
     if a >= u64::MAX - 1 { a - 2 } else { a + 2 }
@@ -487,7 +484,8 @@ fn even_near(a: u64) -> u64 {
 }
 
 /// every corruption of a genuine case; each must be refused
-fn corruptions(g: &FfCase, p: &Parts) -> Vec<FfCase> {
+/// (`full` = also the solution- and puzzle-side classes, which do not depend on the target)
+fn corruptions(g: &FfCase, p: &Parts, full: bool) -> Vec<FfCase> {
     let top: [u8; 32] = SINGLETON_TOP_LAYER_V1_1_HASH;
     let mut out: Vec<FfCase> = Vec::new();
     let mut add = |class: &str, puzzle: Sx, solution: Sx, coin: RCoin, new_coin: RCoin, new_parent: RCoin| {
@@ -524,6 +522,9 @@ fn corruptions(g: &FfCase, p: &Parts) -> Vec<FfCase> {
         add("all/other-puzzle-hash-reseated", pz.clone(), sol.clone(), RCoin { ph: px, ..c }, nc2, np2);
     }
 
+    if !full {
+        return out;
+    }
     // ---- solution fields
     let with = |f: &dyn Fn(&mut Parts)| -> Parts {
         let mut q = p.clone();
@@ -622,13 +623,18 @@ fn clvm_run(puzzle: &Sx, solution: &Sx) -> Option<Sx> {
 }
 
 const FUND_PARENT: [u8; 32] = [0x77; 32];
+const FUND_PARENT2: [u8; 32] = [0x78; 32];
 
-/// run_spendbundle(MEMPOOL_MODE) on the singleton spend + a funding spend `(q)` of amount u64::MAX
-/// (so that neither minting nor reserve fees can reject); returns the summary
+/// run_spendbundle(MEMPOOL_MODE) on the singleton spend + two funding spends `(q)` of 2^64-1 mojos
+/// each (the spends create at most 2^64+1, so neither minting nor reserve fees can reject, whatever
+/// the amount of the coin); returns the summary
 fn mempool_run(coin: &RCoin, puzzle: &Sx, solution: &Sx) -> Result<CSummary, String> {
     let fund_puzzle = Sx::cons(Sx::int(1), Sx::nil());
-    let fund = RCoin { parent: FUND_PARENT, ph: fund_puzzle.tree_hash(), amount: u64::MAX };
-    let spends = vec![CoinSpend::new(coin.real(), Program::from(puzzle.serialize()), Program::from(solution.serialize())), CoinSpend::new(fund.real(), Program::from(fund_puzzle.serialize()), Program::from(Sx::nil().serialize()))];
+    let mut spends = vec![CoinSpend::new(coin.real(), Program::from(puzzle.serialize()), Program::from(solution.serialize()))];
+    for parent in [FUND_PARENT, FUND_PARENT2] {
+        let fund = RCoin { parent, ph: fund_puzzle.tree_hash(), amount: u64::MAX };
+        spends.push(CoinSpend::new(fund.real(), Program::from(fund_puzzle.serialize()), Program::from(Sx::nil().serialize())));
+    }
     let bundle = SpendBundle::new(spends, Signature::default());
     let mut a = Allocator::new();
     match run_spendbundle(&mut a, &bundle, MAX_COST, MEMPOOL_MODE | ConsensusFlags::DONT_VALIDATE_SIGNATURE, &TEST_CONSTANTS) {
@@ -755,7 +761,7 @@ fn run_ff(rep: &Report) {
     let nseeds = seeds.len();
     all.extend(seeds);
     rep.extra("ff_bases", json!({"constructed": constructed, "recorded": nseeds}));
-    let totals: Vec<(u64, u64, u64)> = all
+    let totals: Vec<(u64, u64, u64, Option<Value>)> = all
         .par_iter()
         .enumerate()
         .map(|(bi, b)| {
@@ -776,10 +782,13 @@ fn run_ff(rep: &Report) {
                     expect_genuine: true,
                 };
                 let mut cases = vec![g.clone()];
-                // quick: the corruption catalogue on a third of the targets (all of them for the seeds)
-                if t == Tier::Thorough || seed || (bi + ti) % 3 == 0 {
-                    let cs = corruptions(&g, &b.parts);
-                    classes = cs.len() as u64;
+                // seeds: the whole corruption catalogue on every target; quick: the whole catalogue on
+                // every third target; thorough: the coin-side classes on every target, the (target
+                // independent) solution- and puzzle-side classes on every fourth target
+                let full = seed || (t == Tier::Quick && (bi + ti) % 3 == 0) || (t == Tier::Thorough && (bi + ti) % 4 == 0);
+                if full || t == Tier::Thorough {
+                    let cs = corruptions(&g, &b.parts, full);
+                    classes = classes.max(cs.len() as u64);
                     cases.extend(cs);
                 }
                 for c in &cases {
@@ -795,17 +804,20 @@ fn run_ff(rep: &Report) {
                     }
                 }
             }
-            if bi == 0 || seed {
-                rep.sample(json!({"part": "fast-forward", "base": b.name, "coin": b.coin.json(), "solution": format!("{:?}", b.parts.solution()), "targets": tg.len(), "corruption_classes": classes}));
-            }
+            let sample = (bi == 0 || seed).then(|| json!({"part": "fast-forward", "base": b.name, "coin": b.coin.json(), "solution": format!("{:?}", b.parts.solution()), "targets": tg.len(), "corruption_classes": classes}));
             rep.evals(n_gen + n_cor);
             for (k, n) in loc {
                 rep.outcome_n(&k, n);
             }
             rep.distinct_many(d);
-            (n_gen, n_cor, classes)
+            (n_gen, n_cor, classes, sample)
         })
         .collect();
+    for t in &totals {
+        if let Some(s) = &t.3 {
+            rep.sample(s.clone());
+        }
+    }
     rep.extra("ff_cases", json!({"genuine": totals.iter().map(|t| t.0).sum::<u64>(), "corrupted": totals.iter().map(|t| t.1).sum::<u64>(), "corruption_classes": totals.iter().map(|t| t.2).max().unwrap_or(0)}));
 }
 
@@ -823,6 +835,8 @@ struct Letter {
     creates: u64,
     /// part of the small core alphabet used for the longest lists of the quick tier
     core: bool,
+    /// extension letter: only in lists of at most two letters
+    ext: bool,
 }
 
 const FUND: u64 = 1_000_000;
@@ -864,75 +878,90 @@ fn scene(helper: usize, amount: u64, env_pk: &[u8]) -> Scene {
     let msg = Sx::atom(b"msg");
     let ann = |id: &[u8], m: &[u8]| Sx::atom(&sha256(&[id, m]));
     let mut v: Vec<Letter> = Vec::new();
-    let mut add = |name: &str, sx: Sx, kind: u8, creates: u64, core: bool| v.push(Letter { name: name.to_string(), sx, sig: kind == 1, msg: kind == 2, creates, core });
+    // cls: 1 = core letter, 0 = ordinary letter, 2 = extension letter (second values of one-argument
+    // conditions; only used in lists of at most two letters)
+    let mut add = |name: &str, sx: Sx, kind: u8, creates: u64, cls: u8| v.push(Letter { name: name.to_string(), sx, sig: kind == 1, msg: kind == 2, creates, core: cls == 1, ext: cls == 2 });
     // ---- CREATE_COIN: hint shapes, atom-boundary splits, second target
-    add("cc(A,1)", cond(51, &[a.clone(), Sx::int(1)]), 0, 1, true);
-    add("cc(A,1,())", cond(51, &[a.clone(), Sx::int(1), Sx::nil()]), 0, 1, false);
-    add("cc(A,1,(()))", cond(51, &[a.clone(), Sx::int(1), Sx::list(&[Sx::nil()])]), 0, 1, true);
-    add("cc(A,1,(h32))", cond(51, &[a.clone(), Sx::int(1), Sx::list(&[h32x.clone()])]), 0, 1, true);
-    add("cc(A,1,(h33))", cond(51, &[a.clone(), Sx::int(1), Sx::list(&[Sx::atom(&[0x31; 33])])]), 0, 1, true);
-    add("cc(A,1,((h32.x)))", cond(51, &[a.clone(), Sx::int(1), Sx::list(&[Sx::cons(h32x.clone(), Sx::atom(b"x"))])]), 0, 1, false);
-    add("cc(A,1,(h32 extra))", cond(51, &[a.clone(), Sx::int(1), Sx::list(&[h32x.clone(), Sx::atom(b"extra")])]), 0, 1, false);
-    add("cc(A,1,h32-atom)", cond(51, &[a.clone(), Sx::int(1), h32x.clone()]), 0, 1, false);
-    add("cc(A,1,(00000000))", cond(51, &[a.clone(), Sx::int(1), Sx::list(&[Sx::atom(&[0, 0, 0, 0])])]), 0, 1, true);
-    add("cc(A,0102,(03))", cond(51, &[a.clone(), Sx::atom(&[1, 2]), Sx::list(&[Sx::atom(&[3])])]), 0, 258, true);
-    add("cc(A,01,(0203))", cond(51, &[a.clone(), Sx::atom(&[1]), Sx::list(&[Sx::atom(&[2, 3])])]), 0, 1, true);
-    add("cc(A,0102)", cond(51, &[a.clone(), Sx::atom(&[1, 2])]), 0, 258, true);
-    add("cc(A,010203)", cond(51, &[a.clone(), Sx::atom(&[1, 2, 3])]), 0, 66051, false);
-    add("cc(A,2)", cond(51, &[a.clone(), Sx::int(2)]), 0, 2, true);
-    add("cc(B,1)", cond(51, &[b.clone(), Sx::int(1)]), 0, 1, true);
-    add("cc(B,1,(h32))", cond(51, &[b.clone(), Sx::int(1), Sx::list(&[h32x.clone()])]), 0, 1, false);
-    add("cc(A,1,(h32),x)!", cond(51, &[a.clone(), Sx::int(1), Sx::list(&[h32x.clone()]), Sx::atom(b"x")]), 0, 1, false);
-    add("cc(A,0001)!", cond(51, &[a.clone(), Sx::atom(&[0, 1])]), 0, 1, false);
+    add("cc(A,1)", cond(51, &[a.clone(), Sx::int(1)]), 0, 1, 1);
+    add("cc(A,1,())", cond(51, &[a.clone(), Sx::int(1), Sx::nil()]), 0, 1, 0);
+    add("cc(A,1,(()))", cond(51, &[a.clone(), Sx::int(1), Sx::list(&[Sx::nil()])]), 0, 1, 1);
+    add("cc(A,1,(h32))", cond(51, &[a.clone(), Sx::int(1), Sx::list(&[h32x.clone()])]), 0, 1, 1);
+    add("cc(A,1,(h33))", cond(51, &[a.clone(), Sx::int(1), Sx::list(&[Sx::atom(&[0x31; 33])])]), 0, 1, 1);
+    add("cc(A,1,((h32.x)))", cond(51, &[a.clone(), Sx::int(1), Sx::list(&[Sx::cons(h32x.clone(), Sx::atom(b"x"))])]), 0, 1, 0);
+    add("cc(A,1,(h32 extra))", cond(51, &[a.clone(), Sx::int(1), Sx::list(&[h32x.clone(), Sx::atom(b"extra")])]), 0, 1, 0);
+    add("cc(A,1,h32-atom)", cond(51, &[a.clone(), Sx::int(1), h32x.clone()]), 0, 1, 0);
+    add("cc(A,1,(00000000))", cond(51, &[a.clone(), Sx::int(1), Sx::list(&[Sx::atom(&[0, 0, 0, 0])])]), 0, 1, 1);
+    add("cc(A,0102,(03))", cond(51, &[a.clone(), Sx::atom(&[1, 2]), Sx::list(&[Sx::atom(&[3])])]), 0, 258, 1);
+    add("cc(A,01,(0203))", cond(51, &[a.clone(), Sx::atom(&[1]), Sx::list(&[Sx::atom(&[2, 3])])]), 0, 1, 1);
+    add("cc(A,0102)", cond(51, &[a.clone(), Sx::atom(&[1, 2])]), 0, 258, 1);
+    add("cc(A,010203)", cond(51, &[a.clone(), Sx::atom(&[1, 2, 3])]), 0, 66051, 0);
+    add("cc(A,2)", cond(51, &[a.clone(), Sx::int(2)]), 0, 2, 1);
+    add("cc(B,1)", cond(51, &[b.clone(), Sx::int(1)]), 0, 1, 1);
+    add("cc(B,1,(h32))", cond(51, &[b.clone(), Sx::int(1), Sx::list(&[h32x.clone()])]), 0, 1, 0);
+    add("cc(A,1,(h32),x)!", cond(51, &[a.clone(), Sx::int(1), Sx::list(&[h32x.clone()]), Sx::atom(b"x")]), 0, 1, 0);
+    add("cc(A,0001)!", cond(51, &[a.clone(), Sx::atom(&[0, 1])]), 0, 1, 0);
     // ---- RESERVE_FEE / REMARK: boundary splits across conditions
-    add("fee(01)", cond(52, &[Sx::atom(&[1])]), 0, 0, true);
-    add("fee(0101)", cond(52, &[Sx::atom(&[1, 1])]), 0, 0, true);
-    add("fee(0)", cond(52, &[Sx::nil()]), 0, 0, false);
-    add("remark()", cond(1, &[]), 0, 0, true);
-    add("remark(x)", cond(1, &[Sx::atom(b"x")]), 0, 0, true);
-    add("remark(x y)", cond(1, &[Sx::atom(b"x"), Sx::atom(b"y")]), 0, 0, false);
-    add("remark(.7)", Sx::cons(Sx::atom(&[1]), Sx::atom(&[7])), 0, 0, false);
+    add("fee(01)", cond(52, &[Sx::atom(&[1])]), 0, 0, 1);
+    add("fee(0101)", cond(52, &[Sx::atom(&[1, 1])]), 0, 0, 1);
+    add("fee(0)", cond(52, &[Sx::nil()]), 0, 0, 0);
+    add("remark()", cond(1, &[]), 0, 0, 1);
+    add("remark(x)", cond(1, &[Sx::atom(b"x")]), 0, 0, 1);
+    add("remark(x y)", cond(1, &[Sx::atom(b"x"), Sx::atom(b"y")]), 0, 0, 0);
+    add("remark(.7)", Sx::cons(Sx::atom(&[1]), Sx::atom(&[7])), 0, 0, 0);
     // ---- announcements
-    add("cca(ab)", cond(60, &[Sx::atom(b"ab")]), 0, 0, true);
-    add("cca(a)", cond(60, &[Sx::atom(b"a")]), 0, 0, false);
-    add("cca(b<)", cond(60, &[Sx::atom(b"b<")]), 0, 0, false);
-    add("cpa(ab)", cond(62, &[Sx::atom(b"ab")]), 0, 0, false);
-    add("aca(ab)", cond(61, &[ann(&main.id(), b"ab")]), 0, 0, false);
-    add("apa(ab)", cond(63, &[ann(&main_ph, b"ab")]), 0, 0, false);
-    add("concurrent(helper)", cond(64, &[Sx::atom(&helper_coin.id())]), 0, 0, false);
+    add("cca(ab)", cond(60, &[Sx::atom(b"ab")]), 0, 0, 1);
+    add("cca(a)", cond(60, &[Sx::atom(b"a")]), 0, 0, 0);
+    add("cca(b<)", cond(60, &[Sx::atom(b"b<")]), 0, 0, 0);
+    add("cpa(ab)", cond(62, &[Sx::atom(b"ab")]), 0, 0, 0);
+    add("aca(ab)", cond(61, &[ann(&main.id(), b"ab")]), 0, 0, 0);
+    add("apa(ab)", cond(63, &[ann(&main_ph, b"ab")]), 0, 0, 0);
+    add("concurrent(helper)", cond(64, &[Sx::atom(&helper_coin.id())]), 0, 0, 0);
     // ---- self assertions and time locks
-    add("my-amount", cond(73, &[Sx::int(amount)]), 0, 0, true);
-    add("my-amount-wrong!", cond(73, &[Sx::int(amount + 1)]), 0, 0, false);
-    add("my-puzzle", cond(72, &[Sx::atom(&main_ph)]), 0, 0, false);
-    add("my-parent", cond(71, &[Sx::atom(&P1)]), 0, 0, false);
-    add("my-coin", cond(70, &[Sx::atom(&main.id())]), 0, 0, false);
-    add("height-abs(5)", cond(83, &[Sx::int(5)]), 0, 0, true);
-    add("height-abs(0005)!", cond(83, &[Sx::atom(&[0, 5])]), 0, 0, false);
-    add("height-abs(ff)", cond(83, &[Sx::atom(&[0xff])]), 0, 0, false);
-    add("height-abs(80)", cond(83, &[Sx::atom(&[0x80])]), 0, 0, false);
-    add("height-abs(0105)", cond(83, &[Sx::atom(&[1, 5])]), 0, 0, false);
-    add("seconds-abs(5)", cond(81, &[Sx::int(5)]), 0, 0, false);
-    add("seconds-rel(5)", cond(80, &[Sx::int(5)]), 0, 0, false);
-    add("height-rel(1)", cond(82, &[Sx::int(1)]), 0, 0, false);
-    add("before-seconds-abs(100)", cond(85, &[Sx::int(100)]), 0, 0, false);
-    add("before-height-abs(100)", cond(87, &[Sx::int(100)]), 0, 0, false);
-    add("before-height-abs(over)", cond(87, &[Sx::atom(&[1, 0, 0, 0, 0])]), 0, 0, false);
-    add("birth-seconds(5)", cond(74, &[Sx::int(5)]), 0, 0, false);
-    add("birth-height(5)", cond(75, &[Sx::int(5)]), 0, 0, false);
-    add("ephemeral!", cond(76, &[]), 0, 0, false);
+    add("my-amount", cond(73, &[Sx::int(amount)]), 0, 0, 1);
+    add("my-amount-wrong!", cond(73, &[Sx::int(amount + 1)]), 0, 0, 0);
+    add("my-puzzle", cond(72, &[Sx::atom(&main_ph)]), 0, 0, 0);
+    add("my-parent", cond(71, &[Sx::atom(&P1)]), 0, 0, 0);
+    add("my-coin", cond(70, &[Sx::atom(&main.id())]), 0, 0, 0);
+    add("height-abs(5)", cond(83, &[Sx::int(5)]), 0, 0, 1);
+    add("height-abs(0005)!", cond(83, &[Sx::atom(&[0, 5])]), 0, 0, 0);
+    add("height-abs(ff)", cond(83, &[Sx::atom(&[0xff])]), 0, 0, 0);
+    add("height-abs(80)", cond(83, &[Sx::atom(&[0x80])]), 0, 0, 0);
+    add("height-abs(0105)", cond(83, &[Sx::atom(&[1, 5])]), 0, 0, 0);
+    add("seconds-abs(5)", cond(81, &[Sx::int(5)]), 0, 0, 0);
+    add("seconds-rel(5)", cond(80, &[Sx::int(5)]), 0, 0, 0);
+    add("height-rel(1)", cond(82, &[Sx::int(1)]), 0, 0, 0);
+    add("before-seconds-abs(100)", cond(85, &[Sx::int(100)]), 0, 0, 0);
+    add("before-height-abs(100)", cond(87, &[Sx::int(100)]), 0, 0, 0);
+    add("before-height-abs(over)", cond(87, &[Sx::atom(&[1, 0, 0, 0, 0])]), 0, 0, 0);
+    add("birth-seconds(5)", cond(74, &[Sx::int(5)]), 0, 0, 0);
+    add("birth-height(5)", cond(75, &[Sx::int(5)]), 0, 0, 0);
+    add("ephemeral!", cond(76, &[]), 0, 0, 0);
     // ---- every signature condition
     for op in 43u8..=50 {
-        add(&format!("agg-sig-{op}"), cond(op, &[pk.clone(), Sx::atom(b"m")]), 1, 0, op == 50 || op == 49);
+        add(&format!("agg-sig-{op}"), cond(op, &[pk.clone(), Sx::atom(b"m")]), 1, 0, if op == 50 || op == 49 { 1 } else { 0 });
     }
     // ---- message conditions: to/from self, to/from the helper
-    add("send(self)", cond(66, &[Sx::int(0b010_010), msg.clone(), Sx::atom(&main_ph)]), 2, 0, true);
-    add("recv(self)", cond(67, &[Sx::int(0b010_010), msg.clone(), Sx::atom(&main_ph)]), 2, 0, true);
-    add("recv(from helper)", cond(67, &[Sx::int(0b111_010), msg.clone(), Sx::atom(&h_send)]), 2, 0, true);
-    add("send(to helper)", cond(66, &[Sx::int(0b010_111), msg.clone(), Sx::atom(&h_recv)]), 2, 0, true);
+    add("send(self)", cond(66, &[Sx::int(0b010_010), msg.clone(), Sx::atom(&main_ph)]), 2, 0, 1);
+    add("recv(self)", cond(67, &[Sx::int(0b010_010), msg.clone(), Sx::atom(&main_ph)]), 2, 0, 1);
+    add("recv(from helper)", cond(67, &[Sx::int(0b111_010), msg.clone(), Sx::atom(&h_send)]), 2, 0, 1);
+    add("send(to helper)", cond(66, &[Sx::int(0b010_111), msg.clone(), Sx::atom(&h_recv)]), 2, 0, 1);
     // ---- what mempool mode refuses
-    add("unknown(02)!", Sx::list(&[Sx::atom(&[2]), Sx::atom(b"x")]), 0, 0, false);
-    add("softfork!", cond(90, &[Sx::int(1)]), 0, 0, false);
-    add("two-byte(0133)!", Sx::list(&[Sx::atom(&[1, 0x33]), Sx::atom(b"x")]), 0, 0, false);
+    add("unknown(02)!", Sx::list(&[Sx::atom(&[2]), Sx::atom(b"x")]), 0, 0, 0);
+    add("softfork!", cond(90, &[Sx::int(1)]), 0, 0, 0);
+    add("two-byte(0133)!", Sx::list(&[Sx::atom(&[1, 0x33]), Sx::atom(b"x")]), 0, 0, 0);
+    // ---- extension letters: a second value for every one-argument time lock, the relative before-locks
+    add("seconds-abs(0105)", cond(81, &[Sx::atom(&[1, 5])]), 0, 0, 2);
+    add("seconds-rel(0105)", cond(80, &[Sx::atom(&[1, 5])]), 0, 0, 2);
+    add("height-rel(0105)", cond(82, &[Sx::atom(&[1, 5])]), 0, 0, 2);
+    add("before-seconds-abs(0100)", cond(85, &[Sx::atom(&[1, 0])]), 0, 0, 2);
+    add("before-height-abs(0100)", cond(87, &[Sx::atom(&[1, 0])]), 0, 0, 2);
+    add("before-seconds-rel(100)", cond(84, &[Sx::int(100)]), 0, 0, 2);
+    add("before-seconds-rel(0100)", cond(84, &[Sx::atom(&[1, 0])]), 0, 0, 2);
+    add("before-height-rel(100)", cond(86, &[Sx::int(100)]), 0, 0, 2);
+    add("before-height-rel(0100)", cond(86, &[Sx::atom(&[1, 0])]), 0, 0, 2);
+    add("birth-seconds(0105)", cond(74, &[Sx::atom(&[1, 5])]), 0, 0, 2);
+    add("birth-height(0105)", cond(75, &[Sx::atom(&[1, 5])]), 0, 0, 2);
+    add("fee(02)", cond(52, &[Sx::atom(&[2])]), 0, 0, 2);
     Scene { helper, amount, main, helper_coin, helper_puzzle: hp, letters: v }
 }
 
@@ -970,11 +999,25 @@ fn dedup_run(sc: &Scene, conds: &Sx, fingerprint: bool, render: bool) -> Result<
                     sp.condition_cost = 0;
                 }
                 let txt = format!("{sum:?}");
-                Ok(DRun { eligible, fp, meaning: sha256(&[txt.as_bytes()]), rendered: if render { txt } else { String::new() } })
+                Ok(DRun { eligible, fp, meaning: sha256(&[txt.as_bytes()]), rendered: if render { render_summary(&sum, &sc.main.id()) } else { String::new() } })
             }
             Err(e) => Err(format!("{e:?}")),
         }
     })
+}
+
+/// human-readable form of what was parsed for the main coin (+ the bundle-wide fields)
+fn render_summary(sum: &CSummary, main_id: &[u8; 32]) -> String {
+    let mut out = String::new();
+    for sp in sum.spends.iter().filter(|s| &s.coin_id == main_id) {
+        let cc: Vec<String> = sp.create_coin.iter().map(|(ph, am, hint)| format!("({}.. {am} hint {})", hex::encode(&ph[..4]), hint.as_ref().map_or("none".to_string(), hex::encode))).collect();
+        let sigs: usize = sp.agg_sigs.iter().map(Vec::len).sum();
+        out += &format!(
+            "create_coin [{}] rel(h {:?} s {:?} bh {:?} bs {:?}) birth(h {:?} s {:?}) agg_sigs {sigs} flags {:#x}",
+            cc.join(" "), sp.height_relative, sp.seconds_relative, sp.before_height_relative, sp.before_seconds_relative, sp.birth_height, sp.birth_seconds, sp.flags
+        );
+    }
+    out + &format!(" | bundle: reserve_fee {} abs(h {} s {} bh {:?} bs {:?}) unsafe_sigs {} removed {} added {}", sum.reserve_fee, sum.height_absolute, sum.seconds_absolute, sum.before_height_absolute, sum.before_seconds_absolute, sum.agg_sig_unsafe.len(), sum.removal_amount, sum.addition_amount)
 }
 
 fn list_of(sc: &Scene, idx: &[usize]) -> Sx {
@@ -1037,21 +1080,20 @@ fn run_dedup(rep: &Report) {
     let mut multi_groups = 0u64;
     let mut nletters = 0;
     let mut ncore = 0;
+    let mut nmain = 0;
     for helper in 0..3usize {
         for amount in DEDUP_AMOUNTS {
             let sc = scene(helper, amount, &pk);
             let all: Vec<usize> = (0..sc.letters.len()).collect();
+            let main: Vec<usize> = all.iter().copied().filter(|i| !sc.letters[*i].ext).collect();
             let core: Vec<usize> = all.iter().copied().filter(|i| sc.letters[*i].core).collect();
             nletters = all.len();
+            nmain = main.len();
             ncore = core.len();
-            // thorough: every list of <= 3 letters; quick: every list of <= 2 letters plus every
-            // list of exactly 3 core letters
-            let mut lists = all_lists(&all, t.pick(2, 3));
-            if t == Tier::Quick {
-                lists.extend(all_lists(&core, 3).into_iter().filter(|l| l.len() == 3));
-                lists.sort();
-                lists.dedup();
-            }
+            // every list of <= 2 letters over the whole alphabet; thorough: every list of 3 main
+            // letters; quick: every list of 3 core letters
+            let mut lists = all_lists(&all, 2);
+            lists.extend(all_lists(t.pick(&core, &main), 3).into_iter().filter(|l| l.len() == 3));
             total_lists += lists.len() as u64;
             let recs: Vec<Rec> = lists
                 .par_chunks(512)
@@ -1141,17 +1183,17 @@ fn run_dedup(rep: &Report) {
             }
         }
     }
-    rep.extra("dedup", json!({"letters": nletters, "core_letters": ncore, "scenes": 9, "lists": total_lists, "eligible_spends": total_eligible, "fingerprint_groups": total_groups, "groups_with_more_than_one_list": multi_groups, "largest_group": max_group}));
+    rep.extra("dedup", json!({"letters": nletters, "main_letters": nmain, "core_letters": ncore, "scenes": 9, "lists": total_lists, "eligible_spends": total_eligible, "fingerprint_groups": total_groups, "groups_with_more_than_one_list": multi_groups, "largest_group": max_group}));
 }
 
 // ------------------------------------------------------------------------------------------
 
 fn run(rep: &Report) {
     rep.set_rule(
-        "fast-forward: singleton spends = real top layer curried (own curry) with launcher {a1,a2} x inner puzzle {`1` with conditions in the inner solution, (q . conds)} x 10-13 condition sets (odd CREATE_COIN of the coin amount / of 1, + even output, + time locks, + AGG_SIG_ME/UNSAFE, + memo/REMARK/announcements, + inner ASSERT_MY_AMOUNT / PUZZLEHASH / COIN_ID / PARENT_ID, melt, none, two odd outputs) x coin amount {1,3,2^63+1 | thorough +7f,81,2^32+1,2^64-1} x lineage (parent's parent {c1,c2} x parent amount {1,3,2^63+1}), plus the 2 recorded ff-tests spends; rebase targets = new parent's parent {ab..,00..,ff..,own} x new parent amount x new amount (3 values quick, 5 thorough; seeds {own,1,3,5}); every genuine (spend,target) pair is also put through 33 corruption classes (each coin field, each lineage/solution field, Eve proof, struct mod hash, program, launcher id/hash, inner puzzle, arity; plain and with all dependent hashes re-derived) — quick: corruptions on every third target. dedup: one coin (identity puzzle, amount {0,2,300}) + helper spend {no conditions, sends a message to it, receives a message from it}; every list of <=3 (quick: <=2, plus all triples over the core letters) of the stated letters (CREATE_COIN hint absent/nil/empty/32/33 bytes/pair/atom, amount|hint and fee|remark atom-boundary splits, extra arguments, redundant zero, REMARK shapes, announcements, ASSERT_MY_*, time locks incl. tautologies, all 8 AGG_SIG_*, SEND/RECEIVE to self and to the helper, unknown/softfork/two-byte opcodes) run with and without COMPUTE_FINGERPRINT. distinct = distinct (class, puzzle, solution, coins) fast-forward cases + distinct (scene, fingerprint) groups",
+        "fast-forward: singleton spends = the real top layer curried (own curry) with launcher id {a1 | thorough +a2} x inner puzzle {`1` with the conditions in the inner solution (re-creates itself), (q . conds)} x 10-13 condition sets (odd CREATE_COIN of the coin amount / of 1, + even output, + time locks, + AGG_SIG_ME/UNSAFE, + memo/REMARK/announcements, + inner ASSERT_MY_AMOUNT / _PUZZLEHASH / _COIN_ID / _PARENT_ID, melt -113, no output, two odd outputs) x coin amount {1,3,2^63+1 | thorough +0x81,2^64-1} x lineage (parent's parent {c1 | thorough +c2} x parent amount {1,3,2^63+1}), plus the 2 recorded ff-tests/*.spend; rebase targets = new parent's parent {ab..,00..,ff..,the original one} x new parent amount x new coin amount ({1,3,2^63+1} quick, {1,3,0x81,2^64-1} thorough, {own,1,3,5} for the recorded spends); every genuine (spend,target) pair is also put through 34 corruption classes (each field of the three coins, each lineage/solution field, Eve proof, struct mod hash, curried program, launcher id/hash, inner puzzle, arity, bare inner puzzle; plain and 're-seated' = all dependent hashes re-derived so that exactly one relation is broken) — quick: all classes on every third target, thorough: the 14 coin-side classes on every target and the 20 solution/puzzle-side classes on every fourth target. dedup: one coin (identity puzzle, parent 11.., amount {0,2,300}) next to a helper spend of 10^6 mojos {no conditions, sends a message to the coin, receives a message from it}; condition lists = every list of <=2 of the 78 letters plus every list of 3 of the 66 main letters (quick: of the 23 core letters); letters: CREATE_COIN with hint absent/nil/empty/4 zero bytes/32/33 bytes/pair/atom memos/extra memo, amount|hint atom-boundary splits ([0102][03] vs [01][0203]), second puzzle hash, extra argument, redundant zero; RESERVE_FEE/REMARK boundary splits and REMARK shapes; announcements; ASSERT_MY_*; every time lock with two values and tautologies; all 8 AGG_SIG_*; SEND/RECEIVE_MESSAGE to self and to/from the helper; unknown / SOFTFORK / two-byte opcodes; each list run with and without COMPUTE_FINGERPRINT. distinct = distinct (class, puzzle, solution, three coins) fast-forward cases + distinct (scene, fingerprint) groups of eligible spends",
     );
     rep.assume("fast_forward_singleton does not run the puzzle: for constructed spends whose original does not run (no odd output, two odd outputs) only acceptance/refusal and the shape of the rewrite are checked");
-    rep.assume("run_spendbundle acceptance of the rewritten spend is demanded only when the original is accepted on the old coin and every ASSERT_MY_* of the rewritten output holds for the new coin (inner conditions bound to the old coin are the business of ELIGIBLE_FOR_FF, not of the rewrite); a funding spend of 2^64-1 mojos is added so that value conservation cannot reject");
+    rep.assume("run_spendbundle acceptance of the rewritten spend is demanded only when the original is accepted on the old coin and every ASSERT_MY_* of the rewritten output holds for the new coin (inner conditions bound to the old coin are the business of ELIGIBLE_FOR_FF, not of the rewrite); two funding spends of 2^64-1 mojos each are added so that value conservation cannot reject");
     rep.assume("the singleton top layer module bytes and hash come from the external crate chia-puzzles 0.20.1 (own tree hash of the bytes is checked against the published hash)");
     rep.assume("'identical parsed conditions' = the canonical summary of run_spendbundle (created coins with hints, fees, time locks, birth assertions, signatures, eligibility flags) without cost fields");
     run_ff(rep);
@@ -1172,12 +1214,28 @@ fn replay(case: &Value) -> String {
             let env = drive::env();
             let pk = env.valid_keys.iter().next().unwrap().clone();
             let sc = scene(case["helper"].as_u64().unwrap() as usize, case["amount"].as_u64().unwrap(), &pk);
-            let mut out = String::new();
+            let mut out = format!("helper variant {}, coin amount {}\n", sc.helper, sc.amount);
+            let mut seen: Vec<([u8; 32], [u8; 32])> = Vec::new();
             for l in case["lists"].as_array().unwrap() {
                 let conds = Sx::parse(&hex::decode(l["conditions"].as_str().unwrap()).unwrap()).unwrap();
+                let idx: Vec<usize> = l["letters"].as_array().unwrap().iter().filter_map(|n| sc.letters.iter().position(|x| Some(x.name.as_str()) == n.as_str())).collect();
                 let plain = dedup_run(&sc, &conds, false, true);
                 let with_fp = dedup_run(&sc, &conds, true, true);
-                out += &format!("letters {}\n  conditions {conds:?}\n  plain: {:?}\n  fingerprinting: {:?}\n", l["letters"], plain.map(|r| r.map(|d| (d.eligible, d.rendered))), with_fp.map(|r| r.map(|d| (d.eligible, hex::encode(d.fp), d.rendered))));
+                if let Ok(Ok(d)) = &with_fp {
+                    if d.eligible {
+                        seen.push((d.fp, d.meaning));
+                    }
+                }
+                out += &format!(
+                    "letters {}\n  conditions {conds:?}\n  harness metadata: what forbids eligibility = {:?}\n  plain run: {:?}\n  fingerprinting run: {:?}\n",
+                    l["letters"],
+                    eligibility_violation(&sc, &idx),
+                    plain.map(|r| r.map(|d| format!("eligible={} {}", d.eligible, d.rendered))),
+                    with_fp.map(|r| r.map(|d| format!("eligible={} fingerprint={} {}", d.eligible, hex::encode(d.fp), d.rendered)))
+                );
+            }
+            if seen.len() == 2 {
+                out += &format!("equal fingerprints: {}, identical parsed conditions: {}\n", seen[0].0 == seen[1].0, seen[0].1 == seen[1].1);
             }
             out
         }
